@@ -209,3 +209,10 @@ func (c *Consensus) InstanceFlagsVerif(duty core.Duty) (exists, proposed, partic
 
 	return true, inst.Proposed.Load(), inst.Participated.Load(), inst.Running.Load(), len(inst.RecvBuffer)
 }
+
+// WrapTimerFuncVerif wraps the round timer factory of the component: the harness observes for which
+// duty a round timer is created (every instance must run on a timer created for its own duty). It
+// adds no behaviour of its own.
+func (c *Consensus) WrapTimerFuncVerif(wrap func(timer.RoundTimerFunc) timer.RoundTimerFunc) {
+	c.timerFunc = wrap(c.timerFunc)
+}
